@@ -14,10 +14,12 @@ import (
 	awsp "github.com/atlassian/escalator/pkg/cloudprovider/aws"
 	"github.com/atlassian/escalator/pkg/controller"
 	v1 "k8s.io/api/core/v1"
+	apierrors "k8s.io/apimachinery/pkg/api/errors"
 	"k8s.io/apimachinery/pkg/api/resource"
 	metav1 "k8s.io/apimachinery/pkg/apis/meta/v1"
 	"k8s.io/apimachinery/pkg/labels"
 	"k8s.io/apimachinery/pkg/runtime"
+	"k8s.io/apimachinery/pkg/runtime/schema"
 	"k8s.io/client-go/kubernetes/fake"
 	listerv1 "k8s.io/client-go/listers/core/v1"
 	core "k8s.io/client-go/testing"
@@ -685,10 +687,22 @@ func (w *World) nodeReactor(a core.Action) (bool, runtime.Object, error) {
 		w.J.MaybeCrash()
 		fail := w.J.Hit("update", nd.Name)
 		c := w.classifyUpdate(nd)
-		c.Ok = !fail
+		// a write that loses a race: another writer changed the object (here: set the no-delete annotation) after the caller read
+		// it, and the API server answers 409 Conflict to the caller's stale write
+		conflict := !fail && w.J.HitOnce("conflict", nd.Name)
+		c.Ok = !fail && !conflict
 		w.J.Add(c)
 		if fail {
 			return true, nil, fmt.Errorf("injected: update node %s failed", nd.Name)
+		}
+		if conflict {
+			w.updateNode(nd.Name, func(n *v1.Node) {
+				if n.Annotations == nil {
+					n.Annotations = map[string]string{}
+				}
+				n.Annotations[NoDeleteKey] = "set-by-another-writer"
+			})
+			return true, nil, apierrors.NewConflict(schema.GroupResource{Resource: "nodes"}, nd.Name, fmt.Errorf("the object has been modified"))
 		}
 		return false, nil, nil
 	case "delete":
